@@ -8,6 +8,22 @@ VERIF = os.path.dirname(os.path.dirname(os.path.abspath(__file__)))
 ALL = [f"C{i:02d}" for i in range(1, 21)]
 
 CHECKS = {
+    "C15": dict(
+        category="model_checking",
+        technique="exhaustive schedule enumeration (file enumeration orders, worker counts, hash seeds on the real executable) plus BFS over the open-order lattice with heap-canonical states, differential battery oracle",
+        text=("Schedules: every permutation of the order in which start-up enumerates the source files (subsuming directory "
+              "listing order and set iteration order), worker counts 1,2,3,4,8,16 with the real pool and the synchronous "
+              "stand-in, and the real executable under several PYTHONHASHSEED x --nthreads values; plus explicit-state BFS "
+              "over the lattice of created-and-opened file subsets from a server started on an empty directory, all subsets "
+              "through all orders, merged on the heap canon. On five workspaces with cross-file USE, EXTENDS/deferred "
+              "bindings, module/submodule/sub-submodule, generic interfaces with nested INCLUDE and a header in another "
+              "directory (and a duplicate-header workspace for the hash seed) the query battery must be identical "
+              "everywhere and equal to the reference start-up."),
+        note=("Trusted: vf/battery.py normalisation, vf/canon.py. Workspaces have 3-4 source files, so all n! orders and 2^n "
+              "subsets are covered; larger workspaces are not. The stand-in pool pickles arguments and results like the real "
+              "one."),
+        design="DESIGN.md §4 C15",
+    ),
     "C10": dict(
         category="model_checking",
         technique="explicit-state BFS over sync-event histories on a real directory and server, heap-canonical state identity, differential oracle against a freshly started server",
